@@ -97,7 +97,7 @@ def big_rejected(chk, idx, size):
     small = [pipeline.make_info(rng, i, PATHS) for i in range(rng.randrange(1, 4))]
     where = rng.choice(["start", "middle", "end"])
     rec = lambda j: "SF:big/f%d.c\nFN:1,f%d\nFNDA:1,f%d\nDA:1,1\nDA:2,0\nDA:3,%d\nBRDA:2,0,0,1\nBRDA:2,0,1,-\nend_of_record\n" % (j, j, j, j)
-    nrec = size // len(rec(100000)) + 1
+    nrec = size // len(rec(1)) + 1          # (records get longer with j: the file is at least `size` bytes)
     bad_at = {"start": 0, "middle": nrec // 2, "end": nrec - 1}[where]
     parts = []
     for j in range(nrec):
